@@ -42,8 +42,22 @@ pub struct BinOp {
     pub line: usize,
 }
 
+/// A freshly produced TextSize/TextRange value and its consumers within the producing function.
+#[derive(Debug, Clone)]
+pub struct ValUse {
+    pub func: String,
+    pub producer: String,
+    /// "call:<callee>#<arg>@<file:line:col>", "return", "aggregate:<ty>", "field-store", "other:<kind>"
+    pub uses: Vec<String>,
+    pub file: String,
+    pub line: usize,
+    pub col: usize,
+    pub from_expansion: bool,
+}
+
 #[derive(Default)]
 pub struct CrateFacts {
+    pub valuses: Vec<ValUse>,
     pub name: String,
     pub funcs: Vec<Func>,
     pub calls: Vec<Call>,
@@ -95,6 +109,10 @@ pub fn load(dir: &Path) -> Result<Facts, String> {
                 Some("BINOP") if f.len() >= 6 => {
                     let (file, line, _) = split_loc(f[4]);
                     cf.binops.push(BinOp { func: f[1].to_string(), op: f[2].to_string(), ty: f[3].to_string(), file, line });
+                }
+                Some("VALUSE") if f.len() >= 6 => {
+                    let (file, line, col) = split_loc(f[4]);
+                    cf.valuses.push(ValUse { func: f[1].to_string(), producer: f[2].to_string(), uses: f[3].split(';').filter(|x| !x.is_empty()).map(|x| x.to_string()).collect(), file, line, col, from_expansion: f[5] == "true" });
                 }
                 Some("CAST") if f.len() >= 7 => {
                     let (file, line, _) = split_loc(f[5]);
